@@ -1,6 +1,6 @@
 """C12 - timeouts: wrap, scrub with the operation's own ID, keep serving, orphan the late reply."""
 from facts import walk, callee_of, call_args, loc
-import hirq, anchors
+import hirq, anchors, absx, sem
 
 EXPLANATION = ("O1 in the operation issue point, when the handle's timeout is Some the reply wait is wrapped in tokio::time::timeout(that "
                "duration, the receiver paired with the registered reply sender); on the Err (elapsed) outcome an ID scrub is sent whose "
@@ -13,62 +13,75 @@ TRUSTED = ['tokio::time::timeout semantics', 'tokio scheduler']
 UNDECIDED = ['that the timer fires at the deadline', 'all orderings of arrival vs deadline']
 ASSUMPTIONS = []
 
-def timeout_sites(B):
-    out = []
-    for n, c in walk(B.root):
-        if n['k'] == 'Call' and (callee_of(n) or '') == 'tokio::time::timeout::timeout':
-            out.append((n, c))
-    return out
+TIMEOUT = 'tokio::time::timeout::timeout'
+SELF = ('param', 'self')
 
-def check_timed_wait(ctx, f, B, what, scrub_ok, duration_ok, future_ok):
-    sites = timeout_sites(B)
-    ctx.add('%s.timeout-wrap' % what, B.path, loc(B.root), len(sites) == 1, 'expected exactly one tokio::time::timeout wrap, found %d' % len(sites))
-    for n, c in sites:
-        ctx.add('%s.duration' % what, B.path, loc(n), duration_ok(B.origin(n['args'][0])),
-                'the timeout duration %s is not the one set for this operation' % hirq.fmt_origin(B.origin(n['args'][0])))
-        ctx.add('%s.future' % what, B.path, loc(n), future_ok(n['args'][1]), 'the wrapped future is not the reply wait of this operation')
-        # the awaited result
-        aw = None
-        for a, role in reversed(c):
-            if a['k'] == 'Await':
-                aw = a
-                break
-        ctx.add('%s.awaited' % what, B.path, loc(n), aw is not None, 'the timeout future is not awaited')
-        if aw is None:
+def check_timed_wait(ctx, what, B, outs, is_future, duration_src, scrub_arg_ok, scrub_desc):
+    """Path-level specification of a timed reply wait (independent of how the function spells it):
+       * every path waits at most once, on the reply future itself or on tokio::time::timeout(D, that future);
+       * it is the timed form exactly on the paths where the duration source is Some, and D is its payload;
+       * on a path where the timed wait came back Err (elapsed) an ID scrub is sent after the wait, with the ID of this very
+         operation, and the path returns an error; on a path where it came back Ok no scrub is sent."""
+    is_to = lambda t: t[0] == 'call' and t[1] == TIMEOUT and len(t[2]) == 2
+    n_exp = n_ok = n_untimed = 0
+    loc0 = loc(B.root)
+    for o in outs:
+        aws = [(i, t) for i, t, _n in sem.awaits(o) if is_future(t) or (t[0] == 'call' and 'time::' in t[1])]
+        other_waits = [(i, t) for i, t, _n in sem.awaits(o) if not (is_future(t) or (t[0] == 'call' and 'time::' in t[1])) and sem.has(t, is_future)]
+        if other_waits:
+            ctx.fail('%s.future' % what, B.path, loc0, 'the reply future is awaited through %s, not directly or through tokio::time::timeout' % absx.fmt(other_waits[0][1])[:80])
+        if not aws:
             continue
-        # binding that holds the result
-        resb = None
-        for b, d in B.defs.items():
-            if d.get('src') is aw and not d['proj']:
-                resb = b
-        if resb is None:
-            ctx.fail('%s.result-binding' % what, B.path, loc(n), 'the timeout result is not bound to a variable that is then tested')
-            continue
-        # scrub under is_err
-        sends = [(s, sc) for s, sc in walk(B.root) if s['k'] == 'MethodCall' and s['name'] == 'send'
-                 and hirq.strip_refs(s['recv'].get('ty', '')) == anchors.T_SCRUB_SENDER]
-        good = []
-        for s, sc in sends:
-            under = False
-            for cd in hirq.conditions(sc):
-                if cd[0] == 'if' and cd[2] == 'then':
-                    cn = cd[1]['cond']
-                    if cn['k'] == 'MethodCall' and cn['name'] == 'is_err' and hirq.local_of(cn['recv']) == resb:
-                        under = True
-                if cd[0] == 'arm':
-                    m = cd[1]
-                    if hirq.local_of(m['scrut']) == resb and hirq.pat_variant(m['arms'][cd[2]]['pat']) == 'Err':
-                        under = True
-            if under:
-                good.append(s)
-        ctx.add('%s.scrub-on-expiry' % what, B.path, loc(n), len(good) >= 1, 'no ID scrub is sent when the timeout elapses: the routing entry and the ID leak and a late reply can be delivered')
-        for s in good:
-            ctx.add('%s.scrub-own-id' % what, B.path, loc(s), scrub_ok(B, s),
-                    'the scrubbed ID %s is not the ID of the timed-out operation' % hirq.fmt_origin(B.origin(s['args'][0])))
-        # the error is propagated: Try on the result binding after the scrub
-        tries = [t for t, tc in walk(B.root) if t['k'] == 'Try' and hirq.local_of(t['e']) == resb]
-        ctx.add('%s.elapsed-propagated' % what, B.path, loc(n), bool(tries) and all(B.before(s, t) for s in good for t in tries),
-                'the Elapsed error is not returned to the caller after the scrub')
+        ctx.add('%s.single-wait' % what, B.path + '|' + psig(o), loc0, len(aws) == 1, 'a path waits for the reply %d times' % len(aws))
+        i_aw, t = aws[0]
+        has_d = absx.pc_variant(o.st.pc, duration_src, 'Some')
+        if is_to(t):
+            d, fut = t[2]
+            ctx.add('%s.timeout-wrap' % what, B.path + '|timed', loc0, has_d is True,
+                    'the reply wait is timed on a path where the operation\'s timeout is not known to be set')
+            ctx.add('%s.duration' % what, B.path, loc0, sem.payload_of(d, duration_src),
+                    'the timeout duration %s is not the one set for this operation' % absx.fmt(d)[:80])
+            ctx.add('%s.future' % what, B.path, loc0, is_future(fut), 'the wrapped future %s is not the reply wait of this operation' % absx.fmt(fut)[:80])
+            aw_term = ('await', t)
+            expired = sem.failed(o, lambda v: v == aw_term)
+            fine = sem.succeeded(o, lambda v: v == aw_term)
+            scrubs = [(i, args) for i, cal, args, node in sem.calls(o, lambda c: c.endswith('UnboundedSender::<T>::send'))
+                      if sem.recv_ty(node) == anchors.T_SCRUB_SENDER]
+            if expired:
+                n_exp += 1
+                after = [(i, a) for i, a in scrubs if i > i_aw]
+                ctx.add('%s.scrub-on-expiry' % what, B.path + '|' + psig(o), loc0, len(after) >= 1,
+                        'no ID scrub is sent when the timeout elapses: the routing entry and the ID leak and a late reply can be delivered')
+                for i, a in after:
+                    ctx.add('%s.scrub-own-id' % what, B.path, loc0, scrub_arg_ok(a[1], o),
+                            'the scrubbed ID %s is not %s' % (absx.fmt(a[1])[:60], scrub_desc))
+                ctx.add('%s.elapsed-propagated' % what, B.path + '|' + psig(o), loc0, o.kind in ('ret', 'val') and sem.is_err_result(o.val),
+                        'after the timeout elapsed the function returns %s instead of an error' % absx.fmt(o.val)[:60])
+            elif fine:
+                n_ok += 1
+                ctx.add('%s.no-scrub-without-expiry' % what, B.path + '|' + psig(o), loc0, not scrubs, 'an ID scrub is sent although the reply arrived in time')
+            else:
+                ctx.fail('%s.awaited' % what, B.path + '|' + psig(o), loc0, 'the result of the timed wait is never tested: an elapsed timeout goes unnoticed')
+        elif t[0] == 'call' and 'time::' in t[1]:
+            ctx.fail('%s.timeout-wrap' % what, B.path, loc0, 'the reply wait is wrapped in %s, not in tokio::time::timeout(duration, future)' % t[1])
+        else:
+            n_untimed += 1
+            ctx.add('%s.untimed-wait' % what, B.path + '|' + psig(o), loc0, has_d is False,
+                    'the reply is awaited without a timeout on a path where the operation\'s timeout may be set')
+    ctx.add('%s.timeout-wrap' % what, B.path + '|coverage', loc0, n_exp >= 1 and n_ok >= 1,
+            'expected paths with the timed wait elapsing (%d) and completing (%d)' % (n_exp, n_ok))
+    ctx.add('%s.untimed-wait' % what, B.path + '|coverage', loc0, n_untimed >= 1, 'no path awaits the reply without a timeout')
+
+def psig(o):
+    """A short, line-free signature of a path: the truth values of its tests on waits / sends."""
+    bits = []
+    for a, t in o.st.pc:
+        if a[0] == 'is':
+            s = absx.fmt(sem.strip_site(a[1]))
+            tag = 'timeout' if 'timeout(' in s else 'send' if s.startswith('send(') else 'recv' if 'recv(' in s else 'rx' if 'channel()' in s else None
+            if tag:
+                bits.append('%s%s' % ('' if t else '!', tag + ('.' + a[2] if a[2] not in ('Ok', 'Some') else '')))
+    return ','.join(bits)[:60] or 'plain'
 
 def run(ctx):
     f = ctx.facts
@@ -77,49 +90,37 @@ def run(ctx):
     ctx.analysed['bodies'].update([O.path, C.loop_path])
 
     # ---- O1
-    alloc_calls = [n for n, c in walk(O.root) if n['k'] in ('Call', 'MethodCall') and callee_of(n) == C.alloc_path]
-    o_id = O.origin(alloc_calls[0]) if len(alloc_calls) == 1 else None
-    ctx.add('O1.single-allocation', O.path, loc(O.root), o_id is not None, 'expected one ID allocation per operation')
-    stores = [n for n, c in walk(O.root) if n['k'] == 'Assign' and hirq.peel_refs(n['l'])['k'] == 'Field' and hirq.peel_refs(n['l'])['name'] == 'last_id']
-    def scrub_ok(B, s):
-        o = B.origin(s['args'][0])
-        if o == o_id:
-            return True
-        if o[1] and o[1][-1] == ('field', 'last_id') and o[0] == ('param', 'self'):
-            return len(stores) == 1 and B.origin(stores[0]['r']) == o_id and B.before(stores[0], s)
+    outs, _I = sem.paths(f, O, result_combinators=True)
+    ids = {sem.strip_site(('call', cal, args, None)) for o in outs for i, cal, args, node in sem.calls(o, lambda c: c == C.alloc_path)}
+    ctx.add('O1.single-allocation', O.path, loc(O.root), len(ids) == 1, 'expected one ID allocation per operation')
+    id_term = next(iter(ids)) if ids else None
+    chan = lambda t: t[0] == 'call' and t[1] == 'tokio::sync::oneshot::channel'
+    is_rx = lambda t: (t[0] == 'field' and t[2] == '1' and chan(t[1]))
+    # the receiver must be the one paired with the sender put into the request tuple
+    def paired(o):
+        for i, cal, args, node in sem.calls(o, lambda c: c.endswith('UnboundedSender::<T>::send')):
+            if sem.recv_ty(node) == anchors.T_REQ_SENDER and args[1][0] == 'tuple' and len(args[1][1]) == 5:
+                tx = args[1][1][4]
+                return tx[0] == 'field' and tx[2] == '0' and chan(tx[1])
         return False
-    def duration_ok(o):
-        # Some(payload) of take() on the handle's own timeout field
-        r, p = o
-        if r[0] == 'call' and r[1].endswith('Option::<T>::take') and p == (('variant', 'Some', 0),):
-            n = O.by_id.get(r[2])
-            ro = O.origin(n['recv']) if n else None
-            return ro == (('param', 'self'), (('field', 'timeout'),))
-        return False
-    chans = [n for n, c in walk(O.root) if n['k'] == 'Call' and (callee_of(n) or '') == 'tokio::sync::oneshot::channel']
-    def future_ok(e):
-        o = O.origin(e)
-        return len(chans) == 1 and o[0][0] == 'call' and o[0][2] == chans[0].get('id') and o[1] == (('tup', 1),)
-    check_timed_wait(ctx, f, O, 'O1', scrub_ok, duration_ok, future_ok)
-    # without a timeout the bare receiver is awaited
-    bare = [n for n, c in walk(O.root) if n['k'] == 'Await' and future_ok(n['e'])]
-    ctx.add('O1.untimed-wait', O.path, loc(O.root), len(bare) == 1, 'the untimed path does not await the reply receiver directly')
+    ctx.add('O1.reply-channel-pair', O.path, loc(O.root), all(paired(o) for o in outs if sem.awaits(o)),
+            'the awaited receiver is not the one paired with the reply sender handed to the driver')
+    timeout_field = lambda v: v == ('field', SELF, 'timeout') or sem.taken_from(v, lambda p: p == ('field', SELF, 'timeout'))
+    check_timed_wait(ctx, 'O1', O, outs, is_rx, timeout_field,
+                     lambda a, o: id_term is not None and sem.strip_site(a) == id_term, 'the ID allocated for this operation')
 
     # ---- O2
     nxt = anchors.one('SearchStream::next_inner', [h for p, h in f.hir.items() if p.startswith('ldap3::search::SearchStream') and p.endswith('::next_inner')])
     N = hirq.Body(f, nxt)
     ctx.analysed['bodies'].add(N.path)
-    def scrub2(B, s):
-        o = B.origin(s['args'][0])
-        return o == (('param', 'self'), (('field', 'ldap'), ('field', 'last_id')))
-    def dur2(o):
-        return o == (('param', 'self'), (('field', 'timeout'), ('variant', 'Some', 0)))
-    def fut2(e):
-        e = hirq.peel_refs(e)
-        if e['k'] == 'MethodCall' and (callee_of(e) or '').endswith('UnboundedReceiver::<T>::recv'):
-            return hirq.strip_refs(e['recv'].get('ty', '')) == anchors.T_ITEM_RECEIVER and N.roots(N.origin(e['recv'])) == {('param', 'self')}
-        return False
-    check_timed_wait(ctx, f, N, 'O2', scrub2, dur2, fut2)
+    nouts, _I = sem.paths(f, N, result_combinators=True)
+    def is_recv(t):
+        return t[0] == 'call' and t[1].endswith('UnboundedReceiver::<T>::recv') and len(t[2]) == 1 and sem.has(t[2][0], lambda x: x == ('field', SELF, 'rx'))
+    check_timed_wait(ctx, 'O2', N, nouts, is_recv, lambda v: v == ('field', SELF, 'timeout'),
+                     lambda a, o: a == ('field', ('field', SELF, 'ldap'), 'last_id'), 'the ID of the stream\'s own search (its handle\'s last_id)')
+    # the per-item duration persists: nothing in the per-item call writes or takes the stream's timeout
+    touched = [1 for o in nouts for i, place, val, node in sem.stores(o, lambda p: p == ('field', SELF, 'timeout'))]
+    ctx.add('O2.duration', N.path + '|persists', loc(N.root), not touched, 'the per-item call consumes or overwrites the stream\'s timeout: later items are not timed')
     st = anchors.one('SearchStream::start_inner', [h for p, h in f.hir.items() if p.startswith('ldap3::search::SearchStream') and p.endswith('::start_inner')])
     S = hirq.Body(f, st)
     ctx.analysed['bodies'].add(S.path)
